@@ -148,6 +148,7 @@ def body(ck):
     try:
         from harness.rollout_cases import collect_gae_cases
         e2e = collect_gae_cases(ck, n=(12 if quick else 60))
+        jax.clear_caches()
         for lit_args, j in e2e:
             cases.append(case_lit(*lit_args)); cj.append(j)
     except ImportError:
